@@ -626,7 +626,7 @@ def rule13_victims(ctx, fl):
     ctx.ob('C02.13', 'victim selection: returns &g_envs[index]', len(idxs) == 1, 'one computed index', loc=f.loc)
     if len(idxs) != 1:
         return
-    bad, n_ev = [], 0
+    bad, n_ev, undecided = [], 0, False
     for n in range(2, 7):
         env0 = dict((l.id, n) for l in nwl)
         lo = lib.eval_expr(f, rnd[0].args[0], env0)
@@ -640,14 +640,20 @@ def rule13_victims(ctx, fl):
                 env.update((l.id, rank) for l in rkl)
                 env[rnd[0].id] = r
                 x = lib.eval_expr(f, idxs[0], env)
+                if x is None:
+                    undecided = True
                 n_ev += 1
                 got.add(x)
             if got != set(range(n)) - {rank}:
                 bad.append((n, rank, sorted(got, key=str)))
+    if undecided:
+        # the index is not a pure expression of the draw and the rank (e.g. computed through a branch): nothing is claimed
+        ctx.note('C02.13: victim index not constant-foldable; coverage of victims not decided')
+        return
     ctx.ob('C02.13', 'victim selection: every other worker can be chosen, the thief itself never', n_ev >= 50 and not bad,
            'the set of indices over all draws equals {0..n-1} minus the own rank', loc=f.loc,
            detail='%d points; first mismatches (n, rank, reachable victims): %s' % (n_ev, bad[:3]))
-    ctx.floor('C02.13', 3)
+    ctx.floor('C02.13', 2)
 
 
 def rule10_wsapi(ctx, fl):
